@@ -338,7 +338,9 @@ def correspond(ctx, drivers):
                 if 'data' in res and heaps[-1][2] is None:
                     heaps[-1][2] = len(meta) - 1      # a binary case whose decoded bytes show the implementation's numbering
             else:
-                reqs.append({'op': 'kv2', 'flat': cfg['flat'], 'cull': cfg['cull'], 'g': res['orig_text']})
+                gtext = ''.join(chr(c) for e in res['orig_text']['elems'] for c in e['type'])
+                reqs.append({'op': 'kv2', 'flat': cfg['flat'], 'cull': cfg['cull'], 'g': res['orig_text'],
+                             'fold': fold_table(gtext + 'abcdefghijklmnopqrstuvwxyz_0123456789')})
                 if 'data' in res:
                     hdr = kv2_header(cfg['mode'])
                     if not res['data'].startswith(hdr):
@@ -453,6 +455,13 @@ def _kv2_compare(ctx, case, cfg, res, emitted, it):
         return
     par = next(it)
     body = res['data'][len(kv2_header(cfg['mode'])):].decode('utf8')
+    # the generated graph must satisfy the decidable hypotheses of C14_kv2, and its emission order must be a
+    # permutation of the element indices (then the relation of C14_kv2 is a graph isomorphism)
+    ctx.count('kv2-hyp:' + str(bool(emitted.get('hyp'))))
+    if not emitted.get('hyp'):
+        ctx.disagree(case, 'exportable graph', 'graphWf/uuidsOK/nestAllOK = false', 'generator left the domain of C14_kv2')
+    if not emitted.get('orderOK'):
+        ctx.disagree(case, 'reachable graph', emitted.get('order'), 'emission order is not a permutation of the elements (orderOK = false)')
     if uncodes(emitted.get('text', [])) != body:
         m = uncodes(emitted.get('text', []))
         k = next((i for i, (x, y) in enumerate(zip(m, body)) if x != y), min(len(m), len(body)))
